@@ -9,7 +9,7 @@ DIRECT = {
     'C01': {'read-vs-spec', 'scan-vs-spec', 'view-changed-by-step', 'api-error', 'harness-crash', 'table-status'},
     'C06': {'read-vs-spec', 'scan-vs-spec', 'view-changed-by-step', 'api-error', 'harness-crash'},
     'C07': {'iter-vs-spec', 'scan-vs-spec', 'view-changed-by-step', 'api-error', 'harness-crash', 'table-status'},
-    'C13': {'dir-vs-live', 'iter-vs-spec', 'table-status', 'api-error', 'harness-crash'},
+    'C13': {'dir-vs-live', 'gc-vs-model', 'iter-vs-spec', 'table-status', 'api-error', 'harness-crash'},
     'C14': {'inv-false-on-observed', 'layout-mismatch', 'meta-mismatch', 'api-error', 'harness-crash', 'table-status', 'table-bytes-vs-independent-reader'},
 }
 DIRECT['C19'] = {'read-vs-spec', 'read-vs-spec-after-repair', 'scan-vs-spec', 'iter-vs-spec', 'api-error', 'harness-crash', 'table-status', 'dir-vs-live', 'layout-mismatch'}
